@@ -168,6 +168,25 @@ class ExternalVariableCollector(NodeVisitor):
         if node.name is not None:
             self.provenance[node.name] = "body"
             self.assigned.add(node.name)
+        # The exception type and the body of the handler also use and
+        # assign variables
+        self.generic_visit(node)
+
+    def _visit_capture_pattern(self, node, name):
+        # Names bound by match statements (case [x, *rest], case {**kw}, ...)
+        if name is not None:
+            self.provenance[name] = "body"
+            self.assigned.add(name)
+        self.generic_visit(node)
+
+    def visit_MatchAs(self, node):
+        self._visit_capture_pattern(node, node.name)
+
+    def visit_MatchStar(self, node):
+        self._visit_capture_pattern(node, node.name)
+
+    def visit_MatchMapping(self, node):
+        self._visit_capture_pattern(node, node.rest)
 
     def visit_Import(self, node):
         self.visit_ImportFrom(node)
